@@ -56,6 +56,9 @@ func RenderLog(log []Ev) string {
 					o = "ONack"
 				}
 				out = append(out, fmt.Sprintf("EvInj %s %s", p, o))
+			} else if e.A == "st.Running" {
+				// the store write of UpdateStatus(StatusRunning) was made to fail
+				out = append(out, "EvStFail")
 			}
 		case "notify":
 			out = append(out, fmt.Sprintf("EvNotify %s", className[e.B]))
